@@ -4,7 +4,7 @@
 //!
 //! ops (all numbers decimal):
 //!   note <start-kind> <size-kind>            generator bookkeeping (ignored by model and judge)
-//!   file fix <path under fixtures/>          | file syn <machine> <vbase> <textoff> <load|none|short:N>
+//!   file fix <path under fixtures/>          | file syn <machine> <vbase> <textoff> <load|none|short:N|long>
 //!   text <hex> / data <gap> <hex> / bss <n> / fsym <relvalue> <size>      (synthetic files only)
 //!   arch <x86|x86_64|arm|arm64|none>         architecture of the object, determined by the harness
 //!   req <start> <size> <cont>                the request
@@ -327,6 +327,9 @@ fn build_syn(s: &Syn) -> Option<Bin> {
         // the PT_LOAD's file data ends `cut` bytes before the end of .text
         let filesz = (s.textoff + s.text.len() as u64).saturating_sub(cut);
         Segments::Explicit(vec![ElfSegment { p_type: PT_LOAD, flags: PF_R | PF_X, offset: 0, vaddr: s.vbase, filesz, memsz: end_addr - s.vbase + s.bss.unwrap_or(0), align: 0x1000 }])
+    } else if s.segmode == "long" {
+        // the PT_LOAD claims file data far beyond the end of the file: `segment.data()` fails
+        Segments::Explicit(vec![ElfSegment { p_type: PT_LOAD, flags: PF_R | PF_X, offset: 0, vaddr: s.vbase, filesz: 1 << 20, memsz: 1 << 20, align: 0x1000 }])
     } else {
         Segments::Auto { vbase: s.vbase }
     };
@@ -691,9 +694,11 @@ fn gen_syn(rng: &mut Rng) -> Vec<String> {
         None
     };
     let bss = if rng.chance(1, 3) { Some(rng.range(1, 64)) } else { None };
-    let segmode = match rng.below(8) {
-        0 => "none".to_string(),
-        1 => format!("short:{}", rng.range(1, (text.len() as u64).min(40))),
+    let segmode = match rng.below(16) {
+        0..=1 => "none".to_string(),
+        2 => "long".to_string(),
+        3 => format!("short:{}", rng.range(1, (text.len() as u64).min(40))),
+        4 => format!("short:{}", rng.range(1, (text.len() as u64).min(40))),
         _ => "load".to_string(),
     };
     // functions: a partition of a prefix of the text
@@ -721,6 +726,26 @@ fn gen_syn(rng: &mut Rng) -> Vec<String> {
     let (size, skind) = gen_size(rng, remaining);
     let cont = rng.chance(1, 2);
     build_case(&bin, &format!("syn-{kind} {skind}"), u32c(start), size, cont)
+}
+
+/// Excluded point of `C20_read_no_panic` / `C20_query` (hypothesis `img.base + u32max ≤ u64max`): an object whose
+/// relative-address base is within 4 GiB of 2^64, so that `image_base + start_address` can overflow `u64`
+/// (binary_image.rs:247). Only generated when `VERIF_C20_EXCLUDED` is set; the recorded instances live in
+/// `corpus/C20/excluded-hibase.ops.pending` (see notes/C20.md).
+fn excluded_point(rng: &mut Rng) -> Vec<String> {
+    let below = *rng.pick(&[0x10000u64, 0x1000, 0x7f00_0000, 0xffff_0000]);
+    let vbase = 0u64.wrapping_sub(below);
+    let text = code_snippet(rng, "x86_64", 32);
+    let syn = Syn { machine: "x86_64".into(), vbase, textoff: 0x100, segmode: "load".into(), text, data: None, bss: None, fsyms: vec![(0x100, 32)] };
+    let Some(bin) = build_syn(&syn) else { return vec!["note syn-build-failed".into()] };
+    let start = match rng.below(5) {
+        0 => 0x100,
+        1 => below - 1,
+        2 => below,
+        3 => below + rng.below(0x100),
+        _ => 0xffff_ffff,
+    };
+    build_case(&bin, "excluded-hibase small", u32c(start), rng.range(0, 40) as u32, rng.chance(1, 2))
 }
 
 // ---------------------------------------------------------------------------------------------
@@ -764,10 +789,10 @@ impl Prop for C20 {
     fn case_count(&self, tier: Tier) -> u64 {
         match tier {
             Tier::Quick => 3000,
-            Tier::Thorough => 60000,
+            Tier::Thorough => 150000,
         }
     }
-    fn fixed_cases(&self, _tier: Tier) -> Vec<Case> {
+    fn fixed_cases(&self, tier: Tier) -> Vec<Case> {
         let mut v = Vec::new();
         // section ends of every fixture: starts end-k, sizes at and around the clamp, both continue flags
         for bin in fixtures() {
@@ -806,9 +831,47 @@ impl Prop for C20 {
                 }
             }
         }
+        // exhaustive sweep over one short text per architecture (decodable code, an undecodable pattern, code):
+        // every start from 3 bytes before the section to 3 bytes after it x boundary sizes x both continue flags
+        for (machine, arch) in [("386", "x86"), ("x86_64", "x86_64"), ("arm", "arm"), ("aarch64", "arm64")] {
+            let pats = invalid_patterns(arch);
+            let mut rng = Rng::new(2020);
+            let mut text = code_snippet(&mut rng, arch, 12);
+            if let Some(p) = pats.first() {
+                text.extend_from_slice(p);
+            }
+            text.extend(code_snippet(&mut rng, arch, 16));
+            if let Some(p) = pats.get(1) {
+                text.extend_from_slice(p);
+            }
+            let tlen = text.len() as u32;
+            let syn = Syn {
+                machine: machine.into(),
+                vbase: 0x400000,
+                textoff: 0x100,
+                segmode: "load".into(),
+                text,
+                data: Some((0, vec![0x90, 0x00, 0xff, 0x1f, 0x20, 0x03, 0xd5, 0xc3])),
+                bss: Some(8),
+                fsyms: vec![(0x100, 13), (0x100 + 13 + if arch == "arm" { 1 } else { 0 }, (tlen - 13) as u64)],
+            };
+            let sizes: &[u32] = if tier == Tier::Quick { &[0, 1, 2, 3, 5, 13, 40, 0xffff_ffff] } else { &[0, 1, 2, 3, 4, 5, 6, 7, 8, 12, 13, 14, 16, 24, 32, 40, 47, 0xffff_fff0, 0xffff_fff1, 0xffff_ffff] };
+            if let Some(bin) = build_syn(&syn) {
+                for start in 0x100 - 3..=0x100 + tlen + 8 + 3 {
+                    for &size in sizes {
+                        for cont in [false, true] {
+                            v.push(Case { name: format!("sweep-{arch}-{start}-{size}-{}", cont as u8), ops: build_case(&bin, "sweep sweep", start, size, cont) });
+                        }
+                    }
+                }
+            }
+        }
         v
     }
     fn generate(&self, rng: &mut Rng, _tier: Tier, _index: u64) -> Vec<String> {
+        if std::env::var("VERIF_C20_EXCLUDED").is_ok() && rng.chance(1, 20) {
+            return excluded_point(rng);
+        }
         let fx = fixtures();
         if fx.is_empty() || rng.chance(2, 5) {
             gen_syn(rng)
